@@ -9,7 +9,7 @@ import ast
 import copy
 
 from .common import AnalysisError, norm_stmt
-from .pyflow import Index, own_nodes, stmt_paths
+from .pyflow import Index, own_nodes, stmt_paths  # noqa: F401
 
 KINDS = ("End", "LBrace", "RBrace")
 
@@ -66,4 +66,96 @@ def delimiter_paths(ix: Index) -> dict[str, list[tuple]]:
     for k in KINDS:
         if not out[k]:
             raise AnalysisError(f"handle_fstring_progs: no path for delimiter {k}")
+    return out
+
+
+# ------------------------------------------------------------------------------------------------ mode-stack primitives
+def _call_summary(ix: Index, call: ast.Call, depth: int = 0) -> list[str] | None:
+    """Primitive effects on the mode stack of `state.<method>(args)` (method of TokenizerState, arguments substituted):
+    "pop", "restart(X)" (the enclosing mode, if any, starts a fresh piece of text at X), or None when the method does not touch
+    the stack.  Tests on whether an enclosing mode exists are the stack's own business and do not split the summary."""
+    if not (isinstance(call.func, ast.Attribute) and isinstance(call.func.value, ast.Name) and call.func.value.id in ("state", "self")):
+        return None
+    q = f"TokenizerState.{call.func.attr}"
+    if q not in ix.funcs or depth > 3:
+        return None
+    fn = ix.funcs[q].node
+    params = [a.arg for a in fn.args.args][1:]
+    defaults = dict(zip(params[len(params) - len(fn.args.defaults):], fn.args.defaults))
+    args: dict[str, ast.expr] = {}
+    for pname, v in zip(params, call.args):
+        args[pname] = v
+    for k in call.keywords:
+        if k.arg:
+            args[k.arg] = k.value
+    for pname in params:
+        if pname not in args:
+            if pname not in defaults:
+                return None
+            args[pname] = defaults[pname]
+
+    class R(ast.NodeTransformer):
+        def visit_Name(self, node):
+            if isinstance(node.ctx, ast.Load) and node.id in args:
+                return copy.deepcopy(args[node.id])
+            if node.id == "self":
+                return ast.copy_location(ast.Name(id="state", ctx=node.ctx), node)
+            return node
+    body = [R().visit(copy.deepcopy(s)) for s in fn.body if not (isinstance(s, ast.Expr) and isinstance(s.value, ast.Constant))]
+    try:
+        paths = stmt_paths(body, split_bool=True)
+    except AnalysisError:
+        return None
+    best: list[str] | None = None
+    for p in paths:
+        feasible = True
+        for x in p:
+            if x[0] == "cond":
+                t = ast.parse(x[1], mode="eval").body
+                if isinstance(t, ast.Constant) and bool(t.value) != x[2]:
+                    feasible = False
+                if isinstance(t, ast.Tuple) and bool(t.elts) != x[2]:
+                    feasible = False
+                if x[1] in ("state.end_progs", "len(state.end_progs) > 0", "bool(state.end_progs)") and not x[2]:
+                    feasible = False  # nothing encloses: nothing to restart
+        if not feasible:
+            continue
+        eff = primitives(ix, p, depth + 1)
+        if best is None or len(eff) > len(best):
+            best = eff
+    return best if best else None
+
+
+def primitives(ix: Index, path: tuple, depth: int = 0) -> list[str]:
+    """The depth / mode-stack effects along a path, in order, in primitive form."""
+    out: list[str] = []
+    for x in path:
+        if x[0] == "exit" and x[1] in ("return", "raise") and x[2]:
+            x = ("do", x[2])
+        if x[0] != "do":
+            continue
+        try:
+            tree = ast.parse(x[1])
+        except SyntaxError:
+            continue
+        text = x[1]
+        if text.startswith("state.parenlev"):
+            out.append(text)
+            continue
+        for c in ast.walk(tree):
+            if not isinstance(c, ast.Call):
+                continue
+            fn = norm_stmt(c.func)
+            if fn in ("state.end_progs.pop", "self.end_progs.pop"):
+                out.append("pop")
+            elif fn in ("state.end_progs[-1].reset", "self.end_progs[-1].reset") and c.args:
+                out.append(f"restart({norm_stmt(c.args[0])})")
+            elif fn == "state.add_prog":
+                out.append(norm_stmt(c))
+            elif fn in ("state.end_progs.append", "self.end_progs.append"):
+                out.append(f"push({norm_stmt(c.args[0]) if c.args else ''})")
+            else:
+                s = _call_summary(ix, c, depth)
+                if s:
+                    out += s
     return out
